@@ -10,6 +10,8 @@ R, O = 'core::result::Result', 'core::option::Option'
 # C17
 
 def check_anylayout(ctx, rep, tier):
+    from .rules_event import check_clone_faithful
+    check_clone_faithful(ctx, rep, ('AnyLayout',))     # a copy of the wrapper selects the same layout
     impls = ctx.layout_impls()
     concrete = {path: name for name, ty, path, wrapper in impls if not wrapper}
     wrappers = [(name, ty, path) for name, ty, path, wrapper in impls if wrapper]
@@ -94,7 +96,7 @@ def check_anylayout(ctx, rep, tier):
                                 problems.append('modifier set altered before delegation')
                         if a[3] != ('a', 'handle_ctrl', 'E:HandleControl'):
                             problems.append('Ctrl mode is altered before delegation: %s' % term_str(a[3]))
-                    if lf.ret != c['ret']:
+                    if lf.ret != c['ret'] and eng.deep(lf.ret, _St(lf.doms)) != eng.deep(c['ret'], _St(lf.doms)):
                         problems.append('result of the wrapped layout is not returned unchanged: %s' % term_str(lf.ret))
                 # leaves that restrict other inputs mean the wrapper treats some inputs specially
                 if vname != pty.split('::')[-1]:
@@ -222,6 +224,15 @@ def check_keyboard(ctx, rep, tier):
         if bad:
             rep.finding('C18 %s writes-a-stage-directly' % name, 'Keyboard::%s: %s; %s' % (name, bad, leaf_where(lf)))
 
+    def differs(eng, lf, a_, b_):
+        """two values differ, once both are resolved under the path class's final constraints (a result inspected by the glue
+        - `if let Ok(Some(ev)) = &result` - is the same result, merely seen with its variant decided)"""
+        S = _St(lf.doms)
+        try:
+            return eng.deep(a_, S) != eng.deep(b_, S)
+        except Undecided:
+            return a_ != b_
+
     def call_is(c, callee, argchecks):
         if (c['resolved'] or c['callee']) != callee:
             return 'calls %s where %s is expected' % (c['resolved'] or c['callee_inst'], callee)
@@ -283,7 +294,7 @@ def check_keyboard(ctx, rep, tier):
             why = '%d stage calls instead of one' % len(lf.calls)
         else:
             why = call_is(lf.calls[0], ADV, [ref_to(i_ss), is_atom('byte')])
-            if why is None and lf.ret != lf.calls[0]['ret']:
+            if why is None and differs(eng, lf, lf.ret, lf.calls[0]['ret']):
                 why = 'does not return the scancode decoder\'s result unchanged (%s)' % term_str(lf.ret)
         wiring('add_byte', why is None, why or '', lf)
         untouched(eng, lf, init, [i_ps2, i_ed], 'add_byte', '')
@@ -307,7 +318,7 @@ def check_keyboard(ctx, rep, tier):
                     kinds.add('err')
                     if len(lf.calls) != 1:
                         why = 'a frame rejected by the frame check still reaches the scancode decoder'
-                    elif lf.ret != ('adt', R, 1, c0['ret'][3][1]):
+                    elif differs(eng, lf, lf.ret, ('adt', R, 1, c0['ret'][3][1])):
                         why = 'a framing error is not returned as that error (%s)' % term_str(lf.ret)
                     untouched(eng, lf, init, [i_ps2, i_ss, i_ed], 'add_word', 'on a rejected frame')
                 elif tv == [0]:
@@ -317,7 +328,7 @@ def check_keyboard(ctx, rep, tier):
                     else:
                         byte = c0['ret'][3][0][0]
                         why = call_is(lf.calls[1], ADV, [ref_to(i_ss), eq(byte)])
-                        if why is None and lf.ret != lf.calls[1]['ret']:
+                        if why is None and differs(eng, lf, lf.ret, lf.calls[1]['ret']):
                             why = 'does not return the scancode decoder\'s result unchanged'
                     untouched(eng, lf, init, [i_ps2, i_ed], 'add_word', 'on an accepted frame')
                 else:
@@ -344,7 +355,7 @@ def check_keyboard(ctx, rep, tier):
                     kinds.add('err')
                     if len(lf.calls) != 1:
                         why = 'a framing error still reaches the scancode decoder'
-                    elif lf.ret != ('adt', R, 1, c0['ret'][3][1]):
+                    elif differs(eng, lf, lf.ret, ('adt', R, 1, c0['ret'][3][1])):
                         why = 'a framing error from the bit decoder is not returned as that error (returns %s)' % term_str(lf.ret)
                     untouched(eng, lf, init, [i_ss, i_ed], 'add_bit', 'on a framing error')
                 elif tv == [0]:
@@ -355,7 +366,7 @@ def check_keyboard(ctx, rep, tier):
                         kinds.add('none')
                         if len(lf.calls) != 1:
                             why = 'an incomplete frame reaches the scancode decoder'
-                        elif lf.ret != ('adt', R, 0, (('adt', O, 0, ()),)):
+                        elif differs(eng, lf, lf.ret, ('adt', R, 0, (('adt', O, 0, ()),))):
                             why = 'an incomplete frame does not return Ok(None) (returns %s)' % term_str(lf.ret)
                         untouched(eng, lf, init, [i_ss, i_ed], 'add_bit', 'on an incomplete frame')
                     elif ov == [1]:
@@ -365,7 +376,7 @@ def check_keyboard(ctx, rep, tier):
                         else:
                             byte = opt[3][1][0]
                             why = call_is(lf.calls[1], ADV, [ref_to(i_ss), eq(byte)])
-                            if why is None and lf.ret != lf.calls[1]['ret']:
+                            if why is None and differs(eng, lf, lf.ret, lf.calls[1]['ret']):
                                 why = 'does not return the scancode decoder\'s result unchanged'
                         untouched(eng, lf, init, [i_ed], 'add_bit', 'on a completed frame')
                     else:
@@ -397,7 +408,7 @@ def check_keyboard(ctx, rep, tier):
                     else:
                         chks.append(ck)
                 why = call_is(lf.calls[0], callee, chks)
-                if why is None and returns_call and lf.ret != lf.calls[0]['ret']:
+                if why is None and returns_call and differs(eng, lf, lf.ret, lf.calls[0]['ret']):
                     why = 'does not return the stage\'s result unchanged'
             wiring(name, why is None, why or '', lf)
             untouched(eng, lf, init, touched, name, '')
@@ -428,4 +439,6 @@ def check_keyboard(ctx, rep, tier):
     rep.sample({'add_word': 'Ps2Decoder::add_word(&self.ps2_decoder, word) -> Err(e): return Err(e), no scancode call | Ok(b): S::advance_state(&mut self.scancode_set, b)'})
     rep.rule = ('per path class of each generic Keyboard<L,S> method with stage calls opaque: the sequence of stage calls, their receivers/arguments '
                 '(by place identity) and the returned value match the three-stages-in-sequence wiring; fields of stages the method does not feed are '
-                'structurally unchanged (mutable footprint); no statics / unsafe; non-trivial = wiring obligations')
+                'structurally unchanged (mutable footprint); stage integrity: before every stage call and at the end each stage field holds exactly what '
+                'the previous stage call (its havoc value) or the caller left there - the glue never writes a stage directly; no statics / unsafe; '
+                'non-trivial = wiring obligations')
